@@ -27,19 +27,32 @@ EXTENDS Sphere
 \* ==================================================================================
 \* A. frames, selectors, paths
 \* ==================================================================================
-FrameNames == {"eq", "gal", "ec", "sdss", "xyz"}
-Selectors  == 1..10
+\* "eqr" is the equatorial frame with coordinates in RADIANS (units='rad' of eq2xyz / xyz2eq), "xyzs"
+\* the unit vectors of the stomp convention (stomp=True: longitude counted from the SDSS node)
+FrameNames == {"eq", "eqr", "gal", "ec", "sdss", "xyz", "xyzs"}
+Selectors  == (1..10) \cup (12..17)
 RotateSel  == 11                                   \* coords.rotate: judged like a conversion, not an edge
+\* 9 / 10: eq2xyz / xyz2eq with the default options; 12..17: the other members of their option product
 SelSrc(s) == CASE s = 1 -> "eq"  [] s = 2 -> "gal"  [] s = 3 -> "eq"   [] s = 4 -> "ec"  [] s = 5 -> "ec"
                [] s = 6 -> "gal" [] s = 7 -> "eq"   [] s = 8 -> "sdss" [] s = 9 -> "eq"  [] s = 10 -> "xyz"
                [] s = 11 -> "eq"
+               [] s = 12 -> "eq"  [] s = 13 -> "xyzs" [] s = 14 -> "eqr" [] s = 15 -> "xyz"
+               [] s = 16 -> "eqr" [] s = 17 -> "xyzs"
 SelDst(s) == CASE s = 1 -> "gal" [] s = 2 -> "eq"   [] s = 3 -> "ec"   [] s = 4 -> "eq"  [] s = 5 -> "gal"
                [] s = 6 -> "ec"  [] s = 7 -> "sdss" [] s = 8 -> "eq"   [] s = 9 -> "xyz" [] s = 10 -> "eq"
                [] s = 11 -> "eq"
+               [] s = 12 -> "xyzs" [] s = 13 -> "eq" [] s = 14 -> "xyz" [] s = 15 -> "eqr"
+               [] s = 16 -> "xyzs" [] s = 17 -> "eqr"
+\* the esutil.coords function of a selector and its units / stomp options
 SelName(s) == CASE s = 1 -> "eq2gal" [] s = 2 -> "gal2eq" [] s = 3 -> "eq2ec" [] s = 4 -> "ec2eq" [] s = 5 -> "ec2gal"
-               [] s = 6 -> "gal2ec" [] s = 7 -> "eq2sdss" [] s = 8 -> "sdss2eq" [] s = 9 -> "eq2xyz" [] s = 10 -> "xyz2eq"
-               [] s = 11 -> "rotate"
+               [] s = 6 -> "gal2ec" [] s = 7 -> "eq2sdss" [] s = 8 -> "sdss2eq" [] s = 11 -> "rotate"
+               [] s \in {9, 12, 14, 16} -> "eq2xyz" [] s \in {10, 13, 15, 17} -> "xyz2eq"
+SelUnits(s) == IF s \in 14..17 THEN "rad" ELSE "deg"
+SelStomp(s) == s \in {12, 13, 16, 17}
 IsEuler(s) == s <= 6
+\* conversions that document a dtype= option (the type the caller wants the result in); the others
+\* (xyz2eq, rotate) compute in the type of what they are given
+HasDType(s) == s \in (1..9) \cup {12, 14, 16}
 \* frames joined by a single documented conversion
 HasDirect(a, b) == \E s \in Selectors : SelSrc(s) = a /\ SelDst(s) = b
 Direct(a, b)    == CHOOSE s \in Selectors : SelSrc(s) = a /\ SelDst(s) = b
@@ -77,9 +90,30 @@ EqnCount(p)  == Len(p) + Len(Canon(p))
 EqnUnit9(p)  == IF \A k \in DOMAIN p : ~IsEuler(p[k]) THEN 1 ELSE 10000
 EqnTol9(p)   == EqnUnit9(p) * VMax2(1, EqnCount(p) - 1)
 EqnKind(p)   == IF PathSrc(p) = PathDst(p) THEN (IF Len(p) = 2 THEN "inverse" ELSE "loop") ELSE "chain"
+\* ---- options: result type asked for (dtype=) and representation of the input arrays ------------------
+DTypes == {"f8", "f4", "ld"}                       \* float64 (default), float32, numpy.longdouble
+\* array = contiguous float64 array; scalar / n1 / npscalar = python float, length-1 array, numpy.float64, one
+\* call per point; list = python list; f4 / int = float32 / int64 arrays (of points exactly representable
+\* in them); swapped = non-native byte order; strided = every second element of a larger buffer
+Reps == {"array", "scalar", "n1", "npscalar", "list", "f4", "int", "swapped", "strided"}
+\* working precision of an equation: float32 when the caller asked for float32 results, or gave float32
+\* arrays to a conversion that computes in the type of its input (the source frame is a vector frame:
+\* every conversion leaving it is xyz2eq); otherwise at least float64
+EqnPrec(p, dt, rep) == IF (dt = "f4" /\ \E k \in DOMAIN p : HasDType(p[k])) \/ (rep = "f4" /\ ~HasDType(p[1])) THEN "f4" ELSE "f8"
+\* at float32 precision the statement's 1e-9 / 1e-5 degree cannot be demanded: 1e-3 degree per conversion
+\* pair (a few float32 roundings of a longitude: eps32 * 360 = 4e-5 degree each)
+F4Tol9 == 1000000
+EqnTol9x(p, dt, rep) == IF EqnPrec(p, dt, rep) = "f4" THEN F4Tol9 * VMax2(1, EqnCount(p) - 1) ELSE EqnTol9(p)
+\* a latitude may exceed +-90 by float32 rounding only (4 ulp of 90 = 3.1e-5 degree), never in float64
+LatSlack9(prec) == IF prec = "f4" THEN 31000 ELSE 0
+AnchorTol9x(dt) == IF dt = "f4" THEN F4Tol9 ELSE 10000
 \* isometry tolerance of one conversion (11 = rotate)
-IsoTol9(s)   == IF s \in 7..10 THEN 1 ELSE 10000
+IsoTol9(s)   == IF s \in (7..10) \cup (12..17) THEN 1 ELSE 10000
 RotTol9      == 10000
+\* rotate computes in the type of its input: float32 arrays are judged at float32 resolution
+RotTol9x(rp) == IF rp = "f4" THEN F4Tol9 ELSE RotTol9
+\* eq2xyz of a rational-sphere point, at the resolution asked for
+XyzTol9(dt)  == IF dt = "f4" THEN F4Tol9 ELSE 1
 \* |length - 1| of a unit vector, in units of 2^-52 ("to rounding" = 4 ulp)
 UnitTol52    == 4
 
@@ -157,7 +191,8 @@ DSep(p, q) == IF p.lat = DDeg(0) /\ q.lat = DDeg(0) THEN DCircSep(p.lon, q.lon)
               ELSE (IF q.lat = DDeg(90) THEN DSub(DDeg(90), p.lat) ELSE DAdd(DDeg(90), p.lat))
 
 \* input points of the path equations.  k = "d": exact decimal coordinates (lon, lat) in the source frame
-\* (for sdss: lon = eta, lat = lambda; for xyz: the unit vector at (lon, lat)); k = "r": the rational-
+\* (for sdss: lon = eta, lat = lambda; for xyz / xyzs: the unit vector at (lon, lat); for eqr: the same
+\* position given in radians); k = "r": the rational-
 \* sphere point v (for the spherical frames: its longitude / latitude)
 PtD(lon, lat) == [k |-> "d", lon |-> lon, lat |-> lat, v |-> <<0, 0, 0, 1>>]
 PtR(v)        == [k |-> "r", lon |-> <<0, 0>>, lat |-> <<0, 0>>, v |-> v]
@@ -165,6 +200,7 @@ ValidIn(fr, pt) ==
     IF pt.k = "r" THEN SIsUnit(pt.v)
     ELSE /\ pt.k = "d" /\ DWellFormed(pt.lon) /\ DWellFormed(pt.lat)
          /\ DLe(DDeg(-90), pt.lat) /\ DLe(pt.lat, DDeg(90))
+         /\ fr \in FrameNames
          /\ IF fr = "sdss" THEN DLe(DDeg(-180), pt.lon) /\ DLe(pt.lon, DDeg(180))
             ELSE DLe(DDeg(0), pt.lon) /\ DLe(pt.lon, DDeg(360))
 
